@@ -86,6 +86,13 @@ var props = map[string]*propCfg{
 			"a panic raised by a RefineResult that contradicts the implementation's own result (null under NotNull) escapes Call by documented design",
 			"marks of arguments whose parameter allows marks may or may not appear on a short-circuit result; marks of the others must"},
 		stubs: []string{"function author: Type, Impl and RefineResult callbacks (spies with injected failures)", "caller (seeded argument lists)"}},
+	"C19": {quickRuns: 1 << 40, quickBudget: 35 * time.Second, thorBudget: 9 * time.Minute, thorRuns: 1 << 40, level: "exploration",
+		rule: "one evaluation = one simulated run of one of three simulations: (walk) a generated value (all kinds to depth 3, or deep-and-narrow to depth 5; null, unknown, refined and marked members at every depth; sets) walked with a spying callback that may prune drawn subtrees or fail at a drawn member, then transformed (identity with Enter/Exit spies, replacement of one drawn member by another value of its type, or a failing callback), then unmarked with paths and re-marked in a drawn order, then passed through UnknownAsNull - all judged against the generator's own model tree; (apply) 4..11 paths built step by step through the model, half of them damaged at a drawn step (wrong step kind, index out of range, negative or fractional index, missing key or attribute, step through null, step into a set), applied to the value; (pathsets) a history of 10..59 PathSet operations over up to 4 sets and a pool of 3..20 paths whose steps collide on purpose (every index step hashes alike, an attribute named like the index placeholder, the same number in several representations, composed and decomposed keys) against a model set of canonical renderings. A run is non-trivial when the value has more than one member or at least one set operation ran; distinct = distinct (type, member count | pool size, multiset of fired fault kinds).",
+		assumptions: []string{"sibling order is not promised: histories are checked for each-member-once and parent-before/after-child only",
+			"Path.Apply adds the marks of every container it passes through: the member is compared mark-stripped, with marks a superset of its own and a subset of the value's",
+			"paths whose keys are unknown or marked, and steps through unknown containers, are outside the oracle (documented as unsupported); attribute steps use normalized names",
+			"two indistinguishable unknown members of one set would share one path; generated values keep one of them"},
+		stubs: []string{"Walk / Transform callbacks and Transformer (spies with injected prune, failure, replacement)", "caller of the PathSet API (seeded history)"}},
 	"C05": {quickRuns: 160000, quickBudget: 40 * time.Second, thorBudget: 9 * time.Minute, thorRuns: 1 << 40, level: "exploration",
 		rule: "one evaluation = one simulated run: either a seeded history of 1..12 refinement-builder calls with interleaved NewValue snapshots (builder reused after a snapshot, or refining restarted from a snapshot; rejected calls are the injected contradictions) checked call by call against an interval/nullness/prefix/length model with 8 membership candidates, or one generated string cut at every rune boundary with 5 continuations each. A run is non-trivial when at least one builder call was accepted or more than one cut was examined; distinct = distinct (start type and kind | string, multiset of fired fault kinds) among non-trivial runs.",
 		assumptions: []string{"numbers are compared by their shortest decimal rendering (integers exactly), as go-cty documents for Equals since 1.9.0",
@@ -828,37 +835,37 @@ func writeEvidence(prop, tier string, seed uint64, cfg *propCfg, s *scratch, agg
 		}
 	}
 	cov := map[string]interface{}{
-		"evaluations":         runs,
-		"distinct_nontrivial": distinct,
-		"rule":                cfg.rule + " Counted per worker process and summed (workers explore disjoint run indices of one seed).",
-		"samples":             samples,
-		"nontrivial_runs":     nontrivial,
-		"runs_per_hour":       int(float64(runs) / (wall / 3600)),
-		"seeds":               fmt.Sprintf("VERIF_SEED=%d; run i of worker w uses sub-seed splitmix64(seed, property, w*2^40+i); %d workers", seed, workers),
-		"sim_steps":           steps,
-		"simulated_time":      "logical steps only: go-cty reads no clock and has no timers, so there is no simulated time to cover; sim_steps counts logged events (API calls, snapshots, switches)",
-		"fault_fired":         faults,
-		"probes":              probes,
-		"api_surface":         api,
+		"evaluations":                      runs,
+		"distinct_nontrivial":              distinct,
+		"rule":                             cfg.rule + " Counted per worker process and summed (workers explore disjoint run indices of one seed).",
+		"samples":                          samples,
+		"nontrivial_runs":                  nontrivial,
+		"runs_per_hour":                    int(float64(runs) / (wall / 3600)),
+		"seeds":                            fmt.Sprintf("VERIF_SEED=%d; run i of worker w uses sub-seed splitmix64(seed, property, w*2^40+i); %d workers", seed, workers),
+		"sim_steps":                        steps,
+		"simulated_time":                   "logical steps only: go-cty reads no clock and has no timers, so there is no simulated time to cover; sim_steps counts logged events (API calls, snapshots, switches)",
+		"fault_fired":                      faults,
+		"probes":                           probes,
+		"api_surface":                      api,
 		"maporder_site_policy_triples_hit": triples,
-		"maporder_sites_hit":  len(siteSet),
-		"maporder_sites_total": s.nMap,
-		"yield_sites_hit":     int(yieldSites),
-		"yield_sites_total":   s.nYield,
-		"yields":              int(yields),
-		"context_switches":    int(switches),
-		"mid_call_switches":   int(midcall),
-		"interleavings_distinct": scheds,
-		"states_distinct":     states,
-		"values_checked_wellformed": values,
-		"wellformed_by_producer":    producers,
-		"components":          map[string]interface{}{"real": realComponents, "stub": cfg.stubs},
-		"build_s":             buildS,
-		"worker_cpu_s":        simWall,
-		"known_findings":      nKnown,
-		"notes":               s.note,
-		"extra":               extra,
-		"exhaustive":          false,
+		"maporder_sites_hit":               len(siteSet),
+		"maporder_sites_total":             s.nMap,
+		"yield_sites_hit":                  int(yieldSites),
+		"yield_sites_total":                s.nYield,
+		"yields":                           int(yields),
+		"context_switches":                 int(switches),
+		"mid_call_switches":                int(midcall),
+		"interleavings_distinct":           scheds,
+		"states_distinct":                  states,
+		"values_checked_wellformed":        values,
+		"wellformed_by_producer":           producers,
+		"components":                       map[string]interface{}{"real": realComponents, "stub": cfg.stubs},
+		"build_s":                          buildS,
+		"worker_cpu_s":                     simWall,
+		"known_findings":                   nKnown,
+		"notes":                            s.note,
+		"extra":                            extra,
+		"exhaustive":                       false,
 	}
 	ev := map[string]interface{}{
 		"property_id": prop,
